@@ -33,6 +33,7 @@ const (
 )
 
 type cmafIngesterMgr struct {
+	mu        sync.RWMutex // protects ingesters and cancels (API calls are concurrent)
 	nr        atomic.Uint64
 	ingesters map[uint64]*cmafIngester
 	state     ingesterState
@@ -75,7 +76,27 @@ func (cm *cmafIngesterMgr) Start() {
 	cm.state = ingesterStateRunning
 }
 
+// getIngester returns the ingester with the given number.
+func (cm *cmafIngesterMgr) getIngester(nr uint64) (*cmafIngester, bool) {
+	cm.mu.RLock()
+	defer cm.mu.RUnlock()
+	c, ok := cm.ingesters[nr]
+	return c, ok
+}
+
+// cancelIngester cancels the context of the ingester with the given number.
+func (cm *cmafIngesterMgr) cancelIngester(nr uint64) {
+	cm.mu.RLock()
+	cancel := cm.cancels[nr]
+	cm.mu.RUnlock()
+	if cancel != nil {
+		cancel()
+	}
+}
+
 func (cm *cmafIngesterMgr) Close() {
+	cm.mu.RLock()
+	defer cm.mu.RUnlock()
 	for i, cancel := range cm.cancels {
 		if cm.ingesters[i].state == ingesterStateRunning {
 			cancel()
@@ -185,20 +206,24 @@ func (cm *cmafIngesterMgr) NewCmafIngester(req CmafIngesterSetup) (nr uint64, er
 	if c.dur != nil {
 		c.nrSegsToSend = m.Ptr(*c.dur * 1000 / asset.SegmentDurMS)
 	}
+	cm.mu.Lock()
 	cm.ingesters[nr] = &c
+	cm.mu.Unlock()
 
 	return nr, nil
 }
 
 func (cm *cmafIngesterMgr) startIngester(nr uint64) {
-	c, ok := cm.ingesters[nr]
+	c, ok := cm.getIngester(nr)
 	if !ok {
 		return
 	}
 	var ctx context.Context
 	var cancel context.CancelFunc
 	ctx, cancel = context.WithCancel(context.Background())
+	cm.mu.Lock()
 	cm.cancels[nr] = cancel
+	cm.mu.Unlock()
 	go c.start(ctx)
 }
 
